@@ -310,7 +310,9 @@ func main() {
 	// curated near-misses in every gap of a token sequence
 	base := []string{"grammar", "g", ";", "TK", "=", `"x"`, "@left", "<", "e", "=", "e", "{{", "TK", "}}", "|", ">", "start", "=", "[", "e", "]", ";"}
 	near := []string{"/***/", "/* * / */", "/**/", "/* a **/", "/*/", `/a\//`, `/\//`, `/a/`, "//", "// c\n", `"\""`, `"\\"`, `"a\"b"`, `""`, `"a b"`, "@lef", "@leftx", "@none", "@right",
-		"grammarx", "gramma", "grammar", "$1", "$", "$A_1", "{{{", "}}}", "\r\n", "\t", "A", "AB", "a_1", "_a", "1a", "#", "é", "😀", "/*\n*/", "/* é */", "//é", "/a", "\"a", "/*", "<>", "'"}
+		"grammarx", "gramma", "grammar", "$1", "$", "$A_1", "{{{", "}}}", "\r\n", "\t", "A", "AB", "a_1", "_a", "1a", "#", "é", "😀", "/*\n*/", "/* é */", "//é", "/a", "\"a", "/*", "<>", "'",
+		// a NUL character: between tokens, glued to a token, inside a string, a pattern and both kinds of comment
+		"\x00", "a\x00", "\x00a", "\x00\x00", "\"a\x00b\"", "/a\x00b/", "/* \x00 */", "// \x00\n", "\x00\n"}
 	for gap := 0; gap <= len(base); gap++ {
 		for ni, nm := range near {
 			if !r.MineIdx(gap*len(near) + ni) {
@@ -324,6 +326,6 @@ func main() {
 		}
 	}
 	r.Assume("the reference automaton is the listing in docs/6-design.md with kinds from the token table of docs/5-definitions.md, corrected so that a /* */ comment ends at the first */ as the property states; a single capital letter is a lexical error as in that listing")
-	r.Assume("texts contain no NUL byte and no invalid UTF-8 (the reader's own sentinel / error, outside this property)")
+	r.Assume("texts contain no invalid UTF-8 (the reader's own error, outside this property); a NUL character is covered by the near-miss family only (it is not one of the enumerated representatives)")
 	r.Finish()
 }
